@@ -17,7 +17,7 @@ func (c *Ctx) runPaths(fd *ast.FuncDecl) ([]*Path, string) {
 			return paths, p.Why
 		}
 	}
-	return paths, ""
+	return c.view(fd).normalizePaths(paths), ""
 }
 
 // intHook builds a term hook for folding: integer parameters by object, the receiver's count as n, cap as n+3.
